@@ -187,6 +187,9 @@ type Profile struct {
 	// NoPARFactory: the provider is composed without the pushed-authorization endpoint handler (the instance of a
 	// split deployment that serves the authorization endpoint only; pushes are taken by another instance)
 	NoPARFactory bool `json:"no_par_factory,omitempty"`
+	// AppRevocationHandlerFirst: the integrator registers a revocation handler of its own (cache eviction, audit) in
+	// front of the library's; it knows no token and answers nil
+	AppRevocationHandlerFirst bool `json:"app_revocation_handler_first,omitempty"`
 	// I18N: a message catalog (English + Spanish) is configured, error responses are localised
 	I18N bool `json:"i18n,omitempty"`
 	// StatelessJWTIntrospectionFirst registers the stateless JWT validator in front of the stateful one
@@ -461,6 +464,9 @@ func NewWorld(p Profile) *World {
 		factories = append(factories, compose.PushedAuthorizeHandlerFactory)
 	}
 	w.Prov = compose.Compose(cfg, st, strat, factories...)
+	if p.AppRevocationHandlerFirst {
+		cfg.RevocationHandlers = append(fosite.RevocationHandlers{appRevocationHook{}}, cfg.RevocationHandlers...)
+	}
 	w.Dev = compose.NewDeviceStrategy(cfg)
 	// default cast
 	w.AddClient("A", "secret-A", false)
@@ -544,4 +550,12 @@ func (w *World) NewSession(subject string) fosite.Session {
 		return &fosite.DefaultSession{Subject: subject}
 	}
 	return NewSess(subject)
+}
+
+// appRevocationHook: an application-side revocation handler (evicts a cache entry, writes an audit line); it has
+// nothing to revoke itself.
+type appRevocationHook struct{}
+
+func (appRevocationHook) RevokeToken(ctx context.Context, token string, tokenType fosite.TokenType, client fosite.Client) error {
+	return nil
 }
